@@ -2574,12 +2574,17 @@ def resolve_constants(items, constants):
 def resolve_labels(items, labels):
     position = 0
     new_items = []
+    defined = set()
     for item in items:
         if not isinstance(item, Label):
             position += item.size()
             new_items.append(item)
             continue
 
+        # a second definition would silently win and retarget every reference to the first
+        if item.name in defined:
+            raise AssemblerError('duplicate label: "{}"'.format(item.name), item.line)
+        defined.add(item.name)
         labels[item.name] = position
 
     return new_items
